@@ -8,6 +8,7 @@ import zipfile
 from typing import Any, Dict, Optional
 
 import jinja2
+import markupsafe
 
 import odxtools
 
@@ -43,7 +44,7 @@ def make_xml_attrib(attrib_name: str, attrib_val: Optional[Any]) -> str:
     if attrib_val is None:
         return ""
 
-    return f' {attrib_name}="{attrib_val}"'
+    return markupsafe.Markup(f' {attrib_name}="{markupsafe.escape(attrib_val)}"')
 
 
 def make_bool_xml_attrib(attrib_name: str, attrib_val: Optional[bool]) -> str:
@@ -139,7 +140,8 @@ def write_pdx_file(
                 file_index.append((zf_name, creation_date, mime_type))
                 out_file.write(data_file.read())
 
-        jinja_env = jinja2.Environment(loader=jinja2.FileSystemLoader(templates_dir))
+        jinja_env = jinja2.Environment(
+            loader=jinja2.FileSystemLoader(templates_dir), autoescape=True)
         jinja_env.globals["getattr"] = getattr
         jinja_env.globals["hasattr"] = hasattr
         jinja_env.globals["odxraise"] = jinja2_odxraise_helper
